@@ -12,6 +12,10 @@ open Neatvi Neatvi.Uc
 def rdb (s : Bytes) (i : Nat) : Option Nat :=
   if i < s.length then s[i]? else if i = s.length then some 0 else none
 
+/-- `uc_len(s + i)` of regex.c: the length announced by the lead byte, but never stepping over the
+    terminator -/
+def rxLen (s : Bytes) (i : Nat) : Nat := min (ucLen (s.getD i 0)) (s.length - i)
+
 inductive AK where
   | chr | beg | end_ | any | brk | wbeg | wend
 deriving DecidableEq, Repr
@@ -60,7 +64,7 @@ def litLoop (p : Bytes) : Nat → Nat → Option Nat
     | none => none
     | some c =>
       if i == 0 || !isSpecial c then
-        let l := ucLen c
+        let l := rxLen p i
         if i == 0 && l == 0 then none          -- `s += 0` forever: a pattern that ends in a backslash
         else
           match (if i != 0 then rdb p (i + l) else some 0) with
@@ -128,7 +132,7 @@ def readRep (n : RNode) (p : Bytes) : Option (Option RNode × Bytes) :=
     match p with
     | [] => none
     | _ :: p' =>
-      if mn > Gen.NREPS || mx > Gen.NREPS then some (none, p')
+      if mn > Gen.NREPS || mx > Gen.NREPS || mn < 0 || (mx ≥ 0 && mx < mn) then some (none, p')
       else some (some (setRep n mn mx), p')
   else some (some n, p)
 
